@@ -24,6 +24,7 @@ IDS = ["s1", "s2", "web-1", "S1"]
 PDATAS = [{}, {"role": "web"}, {"role": "db", "n": {"x": 1}}, {"role": "web", "flag": False, "count": 0}]
 CONDS = [None, None, None, ["id", "s1"], ["id", "web-1"], ["nid", "s1"], ["data", "role", "web"]]
 TOP_EXPRS = ["*", "s1", "s*", "web-* or s2", "not s1", "@data_literal:role@web", "@data_glob:role@d*",
+             "not s1 and web-*", "not web-* and s1", "not s* and not web-* or s2", "not (s1 or s2) and s*",
              "* and not @data_literal:role@db", "S1", "@id_literal@s2", "(s1 or s2) and not web-*",
              "@data_literal:flag@False", "not @data_glob:count@0", "@data_glob/i:flag@f* and s*"]
 
